@@ -137,10 +137,11 @@ SUCCESS_PRESERVING = ('std::result::Result::<T, E>::and_then', 'std::option::Opt
 
 
 class ZoneFn:
-    def __init__(self, za, body, overrides=None):
+    def __init__(self, za, body, overrides=None, cg=None):
         self.za = za
         self.body = body
         self.overrides = overrides or {}     # parameter local -> constant term (one call site of a local closure, analysed on its own)
+        self.cg = cg or {}                   # const generic parameter name -> value (one instantiation of a generic function, analysed on its own)
         self.fd = za.eng.fndep(body.path)
         self._term = {}
         self._desc = {}
@@ -713,6 +714,8 @@ class ZoneFn:
             if d.startswith('const '):
                 d = d[6:]
             if d.isidentifier():
+                if d in self.cg:
+                    return (None, self.cg[d])
                 return ('N:' + d, 0)
             return None
         pl = op['pl']
@@ -1290,7 +1293,7 @@ class ZoneFn:
             _, root, path, ty = d
             n = parse_array_len(ty)
             if n is not None and not ty.strip().lstrip('&').strip().startswith(('std::vec', 'mut std::vec')):
-                return (None, int(n)) if n.isdigit() else ('N:' + n, 0)
+                return (None, int(n)) if n.isdigit() else ((None, self.cg[n]) if n in self.cg else ('N:' + n, 0))
             if root in self.mut_roots and not self.fd.is_param(root):
                 fixed = self.za.vec_fixed_len(self, root)
                 return fixed
@@ -1321,7 +1324,7 @@ class ZoneFn:
             _, l, t = d
             n = parse_array_len(self.body.local_ty(l))
             if n is not None:
-                return (None, int(n)) if n.isdigit() else ('N:' + n, 0)
+                return (None, int(n)) if n.isdigit() else ((None, self.cg[n]) if n in self.cg else ('N:' + n, 0))
             if l in self.mut_roots:
                 return self.za.vec_fixed_len(self, l)
             if (t.get('callee') or '').endswith('vec::from_elem') and len(t['args']) == 2:
@@ -1498,7 +1501,7 @@ class ZoneFn:
             m = re.search(r'\[[^;\]]+; (\w+)\]', call.get('callee_full') or '')
             if m and call['args'][0]['k'] in ('copy', 'move'):
                 n = m.group(1)
-                want = (None, int(n)) if n.isdigit() else ('N:' + n, 0)
+                want = (None, int(n)) if n.isdigit() else ((None, self.cg[n]) if n in self.cg else ('N:' + n, 0))
                 ln = self.len_of_place(call['args'][0]['pl'])
                 if ln is not None and parse_array_len(self.body.local_ty(call['args'][0]['pl']['l'])) is None:
                     return [(ln, want), (want, ln)]
